@@ -31,9 +31,9 @@ def keys_wf(m: ty.MapV):
     pos = lambda key: _kpos(ka, key)
     return z3.And(
         m.keys.len >= 0,
-        z3.ForAll([i], z3.Implies(z3.And(i >= 0, i < m.keys.len), z3.And(z3.Select(m.dom, z3.Select(ka, i)), pos(z3.Select(ka, i)) == i)),
+        ty.FA([i], z3.Implies(z3.And(i >= 0, i < m.keys.len), z3.And(z3.Select(m.dom, z3.Select(ka, i)), pos(z3.Select(ka, i)) == i)),
                   patterns=[z3.Select(ka, i)]),
-        z3.ForAll([x], z3.Implies(z3.Select(m.dom, x), z3.And(pos(x) >= 0, pos(x) < m.keys.len, z3.Select(ka, pos(x)) == x)),
+        ty.FA([x], z3.Implies(z3.Select(m.dom, x), z3.And(pos(x) >= 0, pos(x) < m.keys.len, z3.Select(ka, pos(x)) == x)),
                   patterns=[z3.Select(m.dom, x)]))
 
 
